@@ -4,6 +4,7 @@ use std::path::{Path, PathBuf};
 use action::all_action_types;
 use action::ActionContext;
 use action::ActionProvider;
+use action::{Change, Update};
 
 use command::CommandType;
 use command::GenerateCommand;
@@ -603,6 +604,21 @@ impl Server {
             .unwrap();
 
         let changes = action_provider.changes(target_node_id, self).unwrap();
+
+        // an update replaces the whole file: the note's front matter goes back in front of the re-rendered text
+        let changes = changes
+            .into_iter()
+            .map(|change| match change {
+                Change::Update(update) => Change::Update(Update {
+                    markdown: self
+                        .database
+                        .graph()
+                        .with_front_matter(&update.key, update.markdown),
+                    key: update.key,
+                }),
+                other => other,
+            })
+            .collect_vec();
 
         let mut action = code_action.clone();
         action.edit = Some(WorkspaceEdit {
